@@ -1,6 +1,6 @@
 (* C01 — forward and adjoint satisfy the dot-test identity. *)
 From Coq Require Import QArith Qcanon.
-From PV Require Import MatT QcInst GaussQc Check.
+From PV Require Import MatT QcInst GaussQc Check OrdLemmas Tol.
 
 (* For EVERY matrix A (any commutative ring with conjugation) and all u, v:
    <A u, v> = <u, A^H v>.  The per-configuration obligation evaluated by the
@@ -29,3 +29,15 @@ Example C01_example :
   let i : GS := (qz 0, qz 1) in let A : list (list GS) := [[i; (qz 2, qz 0)]; [(qz 0, qz 0); (qz 1, qz 1)]] in
   wfM GS 2 A /\ dot GS (mv GS A [i; (qz 1, qz 0)]) [(qz 1, qz 0); i] = dot GS [i; (qz 1, qz 0)] (mv GS (ctranspose GS 2 A) [(qz 1, qz 0); i]).
 Proof. split; [repeat constructor | vm_compute; reflexivity]. Qed.
+
+(* Meaning of the tolerance: if the extracted adjoint matrix B agrees with
+   A^T entrywise within eps (what the check evaluates), the dot-test defect is
+   bounded by eps |u|_1 |v|_1 for ALL u, v (real case, any ordered field). *)
+Theorem C01_dot_defect_bound :
+  forall (F : OrdField) n m (A B : list (list F)) eps u v,
+    wfM F n A -> length A = m -> wfM F m B -> length B = n -> length u = n -> length v = m ->
+    rle F (r0 F) eps -> Forall (Tol.bounded F eps) (Tol.msub F (transpose F n A) B) ->
+    rle F (OrdLemmas.rabs F (rsub F (dotu F (mv F A u) v) (dotu F u (mv F B v))))
+          (rmul F (rmul F eps (OrdLemmas.l1 F u)) (OrdLemmas.l1 F v)).
+Proof. exact Tol.dot_defect_bound. Qed.
+Print Assumptions C01_dot_defect_bound.
